@@ -1392,6 +1392,10 @@ func (g *gen) random(kind string) *Script {
 				to = hs[:1+g.rng.Intn(len(hs))]
 			}
 			ops = append(ops, sendAll(s, f, id, p, fullSet(n, s, f, id, p), to)...)
+			if g.rng.Intn(2) == 0 { // the accepted list again: other payload, same payload
+				ops = append(ops, sendAll(s, f, id, [2]int{p[0], p[1] + 1}, fullSet(n, s, f, id, p), hs)...)
+				ops = append(ops, sendAll(s, f, id, p, fullSet(n, s, f, id, p), hs[:1])...)
+			}
 		case k < 6: // equivocation: a payload per receiver, then every payload to every receiver
 			ps := [][2]int{p, {p[0], p[1] + 1}}
 			if g.rng.Intn(2) == 0 {
@@ -1478,6 +1482,83 @@ func (g *gen) random(kind string) *Script {
 	return sc
 }
 
+// replayAfterAccept: after successful deliveries (of an honest member's broadcast and of a complete broadcast by the
+// scripted member) the scripted member re-sends the ACCEPTED signature lists, to the same and to other receivers:
+// with another payload, with the same payload (handleMessage keeps no state: the callback runs again), permuted or
+// duplicated, under another registered id, in the other session; several rounds, so that whatever a receiver might
+// remember about an accepted list is exercised.
+func (g *gen) replayAfterAccept(kind string) *Script {
+	n := g.n
+	fl := []int{g.rng.Intn(n)}
+	if n >= 4 && g.rng.Intn(3) == 0 {
+		fl = append(fl, (fl[0]+1+g.rng.Intn(n-1))%n)
+	}
+	hs := honestOf(n, fl)
+	f := fl[g.rng.Intn(len(fl))]
+	s, id := 1, 1+g.rng.Intn(2)
+	oid := 3 - id
+	p1 := g.payload()
+	p2 := [2]int{p1[0], p1[1] + 1 + g.rng.Intn(2)}
+	ops := regAll(n, fl, []int{1, 2}, []int{1, 2})
+	acc := fullSet(n, s, f, id, p1)
+	// accepted deliveries: the scripted member's own complete broadcast of p1 (to all or to some) ...
+	ops = append(ops, askAll(s, f, id, p1, hs)...)
+	first := hs
+	if g.rng.Intn(3) == 0 {
+		first = hs[:1+g.rng.Intn(len(hs))]
+	}
+	ops = append(ops, sendAll(s, f, id, p1, acc, first)...)
+	// ... and an honest member's broadcast under the other id
+	y := g.pick(hs)
+	py := g.payload()
+	ops = append(ops, Op{Op: "bcast", S: s, M: y, ID: oid, P: py})
+	accY := fullSet(n, s, y, oid, py)
+	rounds := 2 + g.rng.Intn(2)
+	for rd := 0; rd < rounds; rd++ {
+		for _, m := range hs {
+			var step []Op
+			add := func(ss, i int, p [2]int, l []SigSpec) {
+				step = append(step, Op{Op: "msg", S: ss, From: f, To: m, ID: i, P: p, Sigs: l})
+			}
+			add(s, id, p2, acc) // accepted list, other payload
+			add(s, id, p1, acc) // accepted list, same payload: delivered again
+			add(s, id, p2, acc) // ... and right after a re-delivery
+			perm := append([]SigSpec(nil), acc...)
+			i := g.rng.Intn(n)
+			j := (i + 1 + g.rng.Intn(n-1)) % n
+			perm[i], perm[j] = perm[j], perm[i]
+			add(s, id, p1, perm)
+			add(s, id, p2, perm)
+			dup := append([]SigSpec(nil), acc...)
+			dup[i] = dup[j]
+			add(s, id, []([2]int){p1, p2}[g.rng.Intn(2)], dup)
+			add(s, id, p2, append(append([]SigSpec(nil), acc...), acc[i])) // accepted list plus one
+			add(s, oid, p1, acc)                                           // under another registered id
+			add(s, oid, p2, acc)
+			add(2, id, p1, acc) // in the other session
+			add(2, id, p2, acc)
+			if m != y { // the honest member's accepted list, re-sent by the scripted member
+				add(s, oid, py, accY)
+				add(s, oid, [2]int{py[0], py[1] + 1}, accY)
+				add(s, id, py, accY)
+			}
+			if rd > 0 {
+				g.rng.Shuffle(len(step), func(a, b int) { step[a], step[b] = step[b], step[a] })
+			}
+			ops = append(ops, step...)
+		}
+		if rd == 0 { // a second accepted payload in session 2, then cross it with the first
+			ops = append(ops, askAll(2, f, id, p2, hs)...)
+			ops = append(ops, sendAll(2, f, id, p2, fullSet(n, 2, f, id, p2), hs)...)
+			for _, m := range hs {
+				ops = append(ops, Op{Op: "msg", S: 2, From: f, To: m, ID: id, P: p1, Sigs: fullSet(n, 2, f, id, p2)})
+				ops = append(ops, Op{Op: "msg", S: 1, From: f, To: m, ID: id, P: p2, Sigs: fullSet(n, 2, f, id, p2)})
+			}
+		}
+	}
+	return &Script{Kind: kind, N: n, Faulty: fl, Ops: ops}
+}
+
 // raceScript: concurrent conflicting signature requests over many registered ids (a probabilistic detector for
 // non-atomic check-and-store in the dedup of handleSigRequest).
 func raceScript(n int, g *gen, nids int) *Script {
@@ -1527,7 +1608,12 @@ func TestGen(t *testing.T) {
 		g := &gen{rng: rng, n: n}
 		scs := corpus(n)
 		scs = append(scs, raceScript(n, g, hx.IntEnv("VERIF_RACE_IDS", 150)))
+		scs = append(scs, g.replayAfterAccept("replay-after-accept"), g.replayAfterAccept("replay-after-accept"))
 		for len(scs) < total/len(sizes) {
+			if len(scs)%8 == 0 {
+				scs = append(scs, g.replayAfterAccept("replay-after-accept"))
+				continue
+			}
 			scs = append(scs, g.random("random"))
 		}
 		for _, sc := range scs {
